@@ -245,4 +245,787 @@ Section QueriesProofs.
     intros Hab (l & -> & Hch & Hlast & _). rewrite <- Hlast. apply chain_path; [exact Hch|].
     intros ->. simpl in Hlast. exact (Hab Hlast).
   Qed.
+
+  (** * [get_nodes_between] *)
+
+  Definition keys (seen : list (A * bool)) : list A := map fst seen.
+
+  Lemma lookupb_some x seen r : lookupb eqb x seen = Some r -> In (x, r) seen.
+  Proof.
+    induction seen as [|[k r'] seen IH]; simpl; [discriminate|].
+    destruct (eqb_spec x k) as [->|Hne].
+    - intros E; inversion E; subst. left; reflexivity.
+    - intros E; right; apply IH, E.
+  Qed.
+
+  Lemma lookupb_none x seen : lookupb eqb x seen = None -> ~ In x (keys seen).
+  Proof.
+    induction seen as [|[k r'] seen IH]; simpl; [intros _ []|].
+    destruct (eqb_spec x k) as [->|Hne]; [discriminate|].
+    intros E [Hk|Hin]; [apply Hne; symmetry; exact Hk|exact (IH E Hin)].
+  Qed.
+
+  Lemma keys_in x r seen : In (x, r) seen -> In x (keys seen).
+  Proof. intros H. unfold keys. change x with (fst (x, r)). apply in_map, H. Qed.
+
+  Lemma keys_filter_nodup (seen : list (A * bool)) :
+    NoDup (keys seen) -> NoDup (map fst (filter snd seen)).
+  Proof.
+    induction seen as [|[k r] seen IH]; simpl; intros Hnd; [constructor|].
+    inversion Hnd as [|? ? Hnin Hnd']; subst. destruct r; simpl; [|apply IH, Hnd'].
+    constructor; [|apply IH, Hnd']. intros Hin. apply Hnin.
+    apply in_map_iff in Hin. destruct Hin as ([k' r'] & E & Hf). simpl in E; subst k'.
+    apply filter_In in Hf. apply (keys_in _ _ _ (proj1 Hf)).
+  Qed.
+
+  Section NodesBetween.
+    Variable g : digraph.
+    Variable b : A.
+    Hypothesis Hwf : wf g.
+    Hypothesis Hac : acyclic g.
+
+    Definition has_path (x : A) : Prop := x = b \/ path g x b.
+
+    Lemma has_path_step x : x <> b -> (has_path x <-> exists c, arc g x c /\ has_path c).
+    Proof.
+      intros Hne; unfold has_path; split.
+      - intros [E|Hp]; [contradiction|]. destruct (path_first Hp) as (z & Hxz & Hz).
+        exists z; split; [exact Hxz|]. destruct Hz as [->|Hz]; [left; reflexivity|right; exact Hz].
+      - intros (c & Hxc & [->|Hc]); right; [apply t_step, Hxc|].
+        eapply t_trans; [apply t_step, Hxc|exact Hc].
+    Qed.
+
+    (** The cache is sound, has distinct keys, and every cached vertex other than the
+        destination has all its children cached. *)
+    Definition seen_ok (seen : list (A * bool)) : Prop :=
+      NoDup (keys seen) /\
+      (forall x r, In (x, r) seen -> (r = true <-> has_path x)) /\
+      (forall x c, In x (keys seen) -> x <> b -> arc g x c -> In c (keys seen)).
+
+    Definition call_post (seen : list (A * bool)) (xs : list A) (seen' : list (A * bool)) : Prop :=
+      seen_ok seen' /\ incl (keys seen) (keys seen') /\ incl xs (keys seen') /\
+      (forall y, In y (keys seen') ->
+                 In y (keys seen) \/ exists x, In x xs /\ (y = x \/ path g x y)).
+
+    Definition call_spec (rec : list (A * bool) -> A -> option (bool * list (A * bool))) (c : A) : Prop :=
+      forall seen0, seen_ok seen0 ->
+        exists r seen', rec seen0 c = Some (r, seen') /\ (r = true <-> has_path c) /\
+                        call_post seen0 [c] seen'.
+
+    Lemma nb_children_spec rec :
+      forall cs seen any,
+        seen_ok seen -> (forall c, In c cs -> call_spec rec c) ->
+        exists r seen', nb_children rec cs seen any = Some (r, seen') /\
+                        (r = true <-> any = true \/ exists c, In c cs /\ has_path c) /\
+                        call_post seen cs seen'.
+    Proof.
+      induction cs as [|c cs IH]; intros seen any Hok Hrec.
+      - exists any, seen. split; [reflexivity|]. split.
+        + split; [intros H; left; exact H|]. intros [H|(c & [] & _)]; exact H.
+        + split; [exact Hok|]. split; [apply incl_refl|]. split; [intros y []|].
+          intros y Hy; left; exact Hy.
+      - cbn [nb_children].
+        destruct (Hrec c (or_introl eq_refl) seen Hok) as (r1 & seen1 & E1 & Hr1 & Hpost1).
+        rewrite E1. destruct Hpost1 as (Hok1 & Hincl1 & Hc1 & Hnew1).
+        destruct (IH seen1 (any || r1) Hok1) as (r & seen' & E & Hr & Hpost).
+        { intros c' Hc'; apply Hrec; right; exact Hc'. }
+        exists r, seen'. split; [exact E|]. destruct Hpost as (Hok' & Hincl' & Hcs' & Hnew').
+        split.
+        + rewrite Hr, orb_true_iff, Hr1. split.
+          * intros [[H|H]|(c' & Hc' & H)].
+            -- left; exact H.
+            -- right; exists c; split; [left; reflexivity|exact H].
+            -- right; exists c'; split; [right; exact Hc'|exact H].
+          * intros [H|(c' & [<-|Hc'] & H)].
+            -- left; left; exact H.
+            -- left; right; exact H.
+            -- right; exists c'; split; assumption.
+        + split; [exact Hok'|]. split; [intros y Hy; apply Hincl', Hincl1, Hy|]. split.
+          * intros y [<-|Hy]; [apply Hincl', Hc1; left; reflexivity|apply Hcs', Hy].
+          * intros y Hy. destruct (Hnew' y Hy) as [Hy1|(x & Hx & Hxy)].
+            -- destruct (Hnew1 y Hy1) as [Hy0|(x & [<-|[]] & Hxy)]; [left; exact Hy0|].
+               right; exists c; split; [left; reflexivity|exact Hxy].
+            -- right; exists x; split; [right; exact Hx|exact Hxy].
+    Qed.
+
+    Lemma nb_inner_spec :
+      forall fuel x, length (desc eqb g x) < fuel -> call_spec (nb_inner eqb fuel g b) x.
+    Proof.
+      induction fuel as [|f IH]; intros x Hfuel seen Hok; [lia|].
+      cbn [nb_inner]. destruct Hok as (Hnd & Hsound & Hclosed).
+      destruct (lookupb eqb x seen) as [r|] eqn:El.
+      - (* cached *)
+        apply lookupb_some in El. exists r, seen. split; [reflexivity|].
+        split; [apply (Hsound x r El)|]. split; [exact (conj Hnd (conj Hsound Hclosed))|].
+        split; [apply incl_refl|]. split; [|intros y Hy; left; exact Hy].
+        intros y [<-|[]]. apply (keys_in _ _ _ El).
+      - apply lookupb_none in El. destruct (eqb_spec x b) as [->|Hxb].
+        + (* start == end *)
+          exists true, ((b, true) :: seen). split; [reflexivity|].
+          split; [split; [intros _; left; reflexivity|reflexivity]|].
+          split; [|split; [apply incl_tl, incl_refl|split]].
+          * split; [constructor; assumption|]. split.
+            -- intros x r [E|Hin]; [|apply Hsound, Hin]. inversion E; subst.
+               split; [intros _; left; reflexivity|reflexivity].
+            -- intros x c [<-|Hx] Hne Hxc; [contradiction|]. right. apply (Hclosed x c Hx Hne Hxc).
+          * intros y [<-|[]]. left; reflexivity.
+          * intros y [Ey|Hy]; [|left; exact Hy]. right; exists y. split; [left; exact Ey|left; reflexivity].
+        + destruct (children eqb g x) as [|c0 cs0] eqn:Ec.
+          * (* sink *)
+            assert (Hnone : forall c, ~ arc g x c).
+            { intros c Hxc. apply children_in in Hxc. rewrite Ec in Hxc. exact Hxc. }
+            exists false, ((x, false) :: seen). split; [reflexivity|].
+            split.
+            { split; [discriminate|]. intros Hp. apply (has_path_step Hxb) in Hp.
+              destruct Hp as (c & Hxc & _). destruct (Hnone c Hxc). }
+            split; [|split; [apply incl_tl, incl_refl|split]].
+            -- split; [constructor; assumption|]. split.
+               ++ intros y r [E|Hin]; [|apply Hsound, Hin]. inversion E; subst.
+                  split; [discriminate|]. intros Hp. apply (has_path_step Hxb) in Hp.
+                  destruct Hp as (c & Hxc & _). destruct (Hnone c Hxc).
+               ++ intros y c [<-|Hy] Hne Hyc; [destruct (Hnone c Hyc)|].
+                  right. apply (Hclosed y c Hy Hne Hyc).
+            -- intros y [<-|[]]. left; reflexivity.
+            -- intros y [Ey|Hy]; [|left; exact Hy]. right; exists y. split; [left; exact Ey|left; reflexivity].
+          * rewrite <- Ec.
+            destruct (@nb_children_spec (nb_inner eqb f g b) (children eqb g x) seen false)
+              as (has & seen1 & E1 & Hhas & Hpost1).
+            { exact (conj Hnd (conj Hsound Hclosed)). }
+            { intros c Hc. apply IH. apply children_in in Hc.
+              pose proof (@desc_rank _ eqb eqb_spec g x c Hwf Hac Hc) as Hlt. lia. }
+            rewrite E1. destruct Hpost1 as ((Hnd1 & Hsound1 & Hclosed1) & Hincl1 & Hcs1 & Hnew1).
+            assert (Hx1 : ~ In x (keys seen1)).
+            { intros Hin. destruct (Hnew1 x Hin) as [Hin0|(c & Hc & Hcx)]; [exact (El Hin0)|].
+              apply children_in in Hc. destruct Hcx as [->|Hcx].
+              - apply (@Hac c), t_step, Hc.
+              - apply (@Hac x). eapply t_trans; [apply t_step, Hc|exact Hcx]. }
+            assert (Hhas' : has = true <-> has_path x).
+            { rewrite Hhas, (has_path_step Hxb). split.
+              - intros [H|(c & Hc & Hp)]; [discriminate|]. exists c; split; [apply children_in, Hc|exact Hp].
+              - intros (c & Hc & Hp). right; exists c; split; [apply children_in, Hc|exact Hp]. }
+            exists has, ((x, has) :: seen1). split; [reflexivity|]. split; [exact Hhas'|].
+            split; [|split; [|split]].
+            -- split; [constructor; assumption|]. split.
+               ++ intros y r [E|Hin]; [|apply (Hsound1 y r Hin)]. inversion E; subst. exact Hhas'.
+               ++ intros y c [<-|Hy] Hne Hyc.
+                  ** right. apply Hcs1, children_in, Hyc.
+                  ** right. apply (Hclosed1 y c Hy Hne Hyc).
+            -- intros y Hy; right; apply Hincl1, Hy.
+            -- intros y [<-|[]]. left; reflexivity.
+            -- intros y [Ey|Hy]; [right; exists y; split; [left; exact Ey|left; reflexivity]|].
+               destruct (Hnew1 y Hy) as [Hy0|(c & Hc & Hcy)]; [left; exact Hy0|].
+               right; exists x; split; [left; reflexivity|]. right. apply children_in in Hc.
+               destruct Hcy as [->|Hcy]; [apply t_step, Hc|].
+               eapply t_trans; [apply t_step, Hc|exact Hcy].
+    Qed.
+  End NodesBetween.
+
+  (** On a DAG, with fuel [|V| + 1], [get_nodes_between] returns exactly the vertices lying on
+      a directed path from [a] to [b] (endpoints included), and the empty set when there is
+      none. *)
+  Theorem nodes_between_correct (g : digraph) a b :
+    wf g -> acyclic g ->
+    exists S, nodes_between eqb (length (verts g) + 1) g a b = Some S /\
+      (forall v, In v S <-> ((v = a \/ path g a v) /\ (v = b \/ path g v b))) /\
+      (~ (a = b \/ path g a b) -> S = []) /\ NoDup S.
+  Proof.
+    intros Hwf Hac. unfold nodes_between.
+    destruct (@nb_inner_spec g b Hwf Hac (length (verts g) + 1) a) with (seen0 := @nil (A * bool))
+      as (r & seen & E & Hr & Hpost).
+    { pose proof (@desc_length_le _ eqb eqb_spec g a Hwf) as Hle. lia. }
+    { split; [constructor|]. split; [intros x r0 []|intros x c []]. }
+    rewrite E. destruct Hpost as ((Hnd & Hsound & Hclosed) & _ & Ha & Hnew).
+    assert (Hcycle : forall v, path g b v -> (v = b \/ path g v b) -> False).
+    { intros v Hbv [->|Hvb]; [exact (Hac b Hbv)|]. apply (Hac b). eapply t_trans; eassumption. }
+    destruct r.
+    - exists (map fst (filter snd seen)). split; [reflexivity|]. split; [|split].
+      + intros v. split.
+        * intros Hv. apply in_map_iff in Hv. destruct Hv as ([v' r'] & Ev & Hf). simpl in Ev; subst v'.
+          apply filter_In in Hf. destruct Hf as [Hin Hr']. simpl in Hr'; subst r'. split.
+          -- destruct (Hnew v (keys_in _ _ _ Hin)) as [[]|(x & [<-|[]] & Hxv)].
+             destruct Hxv as [->|Hxv]; [left; reflexivity|right; exact Hxv].
+          -- apply (Hsound v true Hin). reflexivity.
+        * intros [Hav Hvb].
+          assert (Hkey : In v (keys seen)).
+          { destruct Hav as [->|Hav]; [apply Ha; left; reflexivity|].
+            revert Hvb. pattern v. revert v Hav. apply path_ind_right.
+            - intros y Hay Hyb. apply (Hclosed a y); [apply Ha; left; reflexivity| |exact Hay].
+              intros ->. apply (Hcycle y); [apply t_step, Hay|exact Hyb].
+            - intros x y Hax IHx Hxy Hyb.
+              assert (Hxb : path g x b).
+              { destruct Hyb as [<-|Hyb]; [apply t_step, Hxy|].
+                eapply t_trans; [apply t_step, Hxy|exact Hyb]. }
+              apply (Hclosed x y); [apply IHx; right; exact Hxb| |exact Hxy].
+              intros ->. exact (Hac b Hxb). }
+          unfold keys in Hkey. apply in_map_iff in Hkey. destruct Hkey as ([v' r'] & Ev & Hin).
+          simpl in Ev; subst v'. apply in_map_iff. exists (v, r'). split; [reflexivity|].
+          apply filter_In. split; [exact Hin|]. simpl. apply (Hsound v r' Hin). exact Hvb.
+      + intros Hn. exfalso. apply Hn. apply Hr. reflexivity.
+      + apply keys_filter_nodup, Hnd.
+    - exists []. split; [reflexivity|]. split; [|split; [reflexivity|constructor]].
+      intros v. split; [intros []|]. intros [Hav Hvb].
+      assert (Hab : has_path g b a).
+      { unfold has_path. destruct Hav as [->|Hav]; [exact Hvb|]. right.
+        destruct Hvb as [<-|Hvb]; [exact Hav|eapply t_trans; eassumption]. }
+      apply Hr in Hab. discriminate.
+  Qed.
+
+  (** * [directed_path_exists] *)
+
+  Lemma dpe_children_spec (g : digraph) b (rec : A -> option bool) :
+    forall cs,
+      (forall c, In c cs -> exists r, rec c = Some r /\ (r = true <-> path g c b)) ->
+      exists r, dpe_children rec cs = Some r /\ (r = true <-> exists c, In c cs /\ path g c b).
+  Proof.
+    induction cs as [|c cs IH]; intros Hrec.
+    - exists false. split; [reflexivity|]. split; [discriminate|]. intros (c & [] & _).
+    - cbn [dpe_children]. destruct (Hrec c (or_introl eq_refl)) as (r1 & E1 & Hr1). rewrite E1.
+      destruct r1.
+      + exists true. split; [reflexivity|]. split; [|reflexivity]. intros _.
+        exists c; split; [left; reflexivity|apply Hr1; reflexivity].
+      + destruct IH as (r & E & Hr); [intros c' Hc'; apply Hrec; right; exact Hc'|].
+        exists r. split; [exact E|]. rewrite Hr. split.
+        * intros (c' & Hc' & Hp). exists c'; split; [right; exact Hc'|exact Hp].
+        * intros (c' & [<-|Hc'] & Hp).
+          -- apply Hr1 in Hp. discriminate.
+          -- exists c'; split; assumption.
+  Qed.
+
+  Lemma dpe_spec (g : digraph) b :
+    wf g -> acyclic g ->
+    forall fuel x, length (desc eqb g x) < fuel ->
+                   exists r, dpe eqb fuel g b x = Some r /\ (r = true <-> path g x b).
+  Proof.
+    intros Hwf Hac. induction fuel as [|f IH]; intros x Hfuel; [lia|].
+    cbn [dpe]. destruct (memb eqb b (children eqb g x)) eqn:Eb.
+    - exists true. split; [reflexivity|]. split; [|reflexivity]. intros _.
+      apply t_step, children_in, memb_in, Eb.
+    - destruct (@dpe_children_spec g b (dpe eqb f g b) (children eqb g x)) as (r & E & Hr).
+      { intros c Hc. apply IH. apply children_in in Hc.
+        pose proof (@desc_rank _ eqb eqb_spec g x c Hwf Hac Hc) as Hlt. lia. }
+      exists r. split; [exact E|]. rewrite Hr. split.
+      + intros (c & Hc & Hp). eapply t_trans; [apply t_step, children_in, Hc|exact Hp].
+      + intros Hp. destruct (path_first Hp) as (z & Hxz & Hz). destruct Hz as [->|Hz].
+        * apply children_in, memb_in in Hxz. congruence.
+        * exists z; split; [apply children_in, Hxz|exact Hz].
+  Qed.
+
+  (** On a DAG the visited-set-free DFS terminates within recursion depth [|V|] and decides
+      directed reachability by a non-empty path.  (On a cyclic graph the Python recursion does
+      not terminate; the model then runs out of fuel: see [directed_path_exists_cyclic].) *)
+  Theorem directed_path_exists_correct (g : digraph) a b :
+    wf g -> acyclic g -> In a (verts g) ->
+    exists r, directed_path_exists eqb (length (verts g)) g a b = Some r /\
+              (r = true <-> path g a b).
+  Proof.
+    intros Hwf Hac Ha. unfold directed_path_exists. apply dpe_spec; try assumption.
+    apply (@desc_length_lt _ eqb eqb_spec g a Hwf Hac Ha).
+  Qed.
+
+  Corollary directed_path_exists_iff (g : digraph) a b :
+    wf g -> acyclic g -> In a (verts g) ->
+    (directed_path_exists eqb (length (verts g)) g a b = Some true <-> path g a b).
+  Proof.
+    intros Hwf Hac Ha. destruct (@directed_path_exists_correct g a b Hwf Hac Ha) as (r & E & Hr).
+    rewrite E. split.
+    - intros H; inversion H; subst r. apply Hr; reflexivity.
+    - intros Hp. apply Hr in Hp. subst r. reflexivity.
+  Qed.
+
+  (** * Topological orders *)
+
+  (** [a] occurs strictly before [b] in [l]. *)
+  Definition before (l : list A) (a b : A) : Prop :=
+    exists l1 l2 l3, l = l1 ++ a :: l2 ++ b :: l3.
+
+  (** The textbook notion: a permutation of the vertices in which every arc goes forward. *)
+  Definition topo_order (g : digraph) (l : list A) : Prop :=
+    Permutation l (verts g) /\ forall a b, arc g a b -> before l a b.
+
+  Fixpoint fwd (g : digraph) (l : list A) : Prop :=
+    match l with
+    | [] => True
+    | x :: l' => (forall y, In y (x :: l') -> ~ arc g y x) /\ fwd g l'
+    end.
+
+  Lemma fwdb_spec (g : digraph) l : fwdb eqb g l = true <-> fwd g l.
+  Proof.
+    induction l as [|x l IH]; [simpl; tauto|].
+    cbn [fwdb fwd]. rewrite andb_true_iff, IH, forallb_forall.
+    split; intros [H1 H2]; (split; [|exact H2]).
+    - intros y Hy. apply (has_arc_false eqb eqb_spec), negb_true_iff, H1, Hy.
+    - intros y Hy. apply negb_true_iff, (has_arc_false eqb eqb_spec), H1, Hy.
+  Qed.
+
+  Lemma distinctb_spec l : distinctb eqb l = true <-> NoDup l.
+  Proof.
+    induction l as [|x l IH]; simpl.
+    - split; [constructor|reflexivity].
+    - rewrite andb_true_iff, negb_true_iff, memb_false, IH. split.
+      + intros [Hnin Hnd]; constructor; assumption.
+      + intros H; inversion H; subst; split; assumption.
+  Qed.
+
+  Lemma before_in l a b : before l a b -> In a l /\ In b l.
+  Proof.
+    intros (l1 & l2 & l3 & ->). split; apply in_or_app; right.
+    - left; reflexivity.
+    - right. apply in_or_app; right; left; reflexivity.
+  Qed.
+
+  Lemma before_cons x l a b : before l a b -> before (x :: l) a b.
+  Proof. intros (l1 & l2 & l3 & ->). exists (x :: l1), l2, l3. reflexivity. Qed.
+
+  Lemma before_head x l b : In b l -> before (x :: l) x b.
+  Proof. intros Hb. apply in_split in Hb. destruct Hb as (l2 & l3 & ->). exists [], l2, l3. reflexivity. Qed.
+
+  Lemma before_cons_inv x l a b : a <> x -> before (x :: l) a b -> before l a b.
+  Proof.
+    intros Hne (l1 & l2 & l3 & E). destruct l1 as [|y l1]; simpl in E; inversion E; subst.
+    - contradiction.
+    - exists l1, l2, l3. reflexivity.
+  Qed.
+
+  Lemma before_snd_tail x l a b : before (x :: l) a b -> In b l.
+  Proof.
+    intros (l1 & l2 & l3 & E). destruct l1 as [|y l1]; simpl in E; inversion E; subst.
+    - apply in_or_app; right; left; reflexivity.
+    - apply in_or_app; right; right. apply in_or_app; right; left; reflexivity.
+  Qed.
+
+  Lemma fwd_before (g : digraph) l :
+    NoDup l -> fwd g l -> forall a b, arc g a b -> In a l -> In b l -> before l a b.
+  Proof.
+    induction l as [|x l IH]; intros Hnd Hf a b Hab Ha Hb; [contradiction|].
+    inversion Hnd as [|? ? Hnin Hnd']; subst. destruct Hf as [Hx Hf].
+    destruct Hb as [<-|Hb]; [destruct (Hx a Ha Hab)|].
+    destruct Ha as [<-|Ha]; [apply before_head, Hb|].
+    apply before_cons, IH; assumption.
+  Qed.
+
+  Lemma before_fwd (g : digraph) l :
+    NoDup l -> (forall a b, arc g a b -> In a l -> In b l -> before l a b) -> fwd g l.
+  Proof.
+    induction l as [|x l IH]; intros Hnd Hb; [exact I|].
+    inversion Hnd as [|? ? Hnin Hnd']; subst. split.
+    - intros y Hy Hyx. apply Hnin. apply (@before_snd_tail x l y x).
+      apply Hb; [exact Hyx|exact Hy|left; reflexivity].
+    - apply IH; [exact Hnd'|]. intros a b Hab Ha Hb'.
+      apply (@before_cons_inv x); [intros ->; exact (Hnin Ha)|].
+      apply Hb; [exact Hab|right; exact Ha|right; exact Hb'].
+  Qed.
+
+  (** The boolean checker decides the textbook notion. *)
+  Theorem is_topo_spec (g : digraph) l : wf g -> (is_topo eqb g l = true <-> topo_order g l).
+  Proof.
+    intros [Hndv Hwf]. unfold is_topo, topo_order.
+    rewrite !andb_true_iff, distinctb_spec, (seteqb_spec eqb eqb_spec), fwdb_spec. split.
+    - intros [[Hnd Heq] Hf]. split; [apply NoDup_Permutation; assumption|].
+      intros a b Hab. destruct (Hwf a b Hab) as [Ha Hb].
+      apply (@fwd_before g l Hnd Hf a b Hab); apply Heq; assumption.
+    - intros [Hperm Hb].
+      assert (Hnd : NoDup l) by (apply (Permutation_NoDup (Permutation_sym Hperm)), Hndv).
+      split; [split; [exact Hnd|]|].
+      + intros x; split; apply Permutation_in; [exact Hperm|apply Permutation_sym, Hperm].
+      + apply before_fwd; [exact Hnd|]. intros a b Hab _ _. apply Hb, Hab.
+  Qed.
+
+  Lemma removeb_in x l y : In y (removeb eqb x l) <-> In y l /\ y <> x.
+  Proof. unfold removeb. rewrite filter_In, negb_true_iff, eqb_neq. tauto. Qed.
+
+  Lemma removeb_nodup x l : NoDup l -> NoDup (removeb eqb x l).
+  Proof. apply NoDup_filter. Qed.
+
+  Lemma filter_len_le (X : Type) (f : X -> bool) l : length (filter f l) <= length l.
+  Proof. induction l as [|a l IH]; simpl; [lia|]. destruct (f a); simpl; lia. Qed.
+
+  Lemma removeb_length x l : In x l -> length (removeb eqb x l) < length l.
+  Proof.
+    unfold removeb. induction l as [|a l IH]; intros Hx; [contradiction|]. simpl.
+    assert (Hle : length (filter (fun y => negb (eqb y x)) l) <= length l) by apply filter_len_le.
+    destruct (eqb_spec a x) as [->|Hne]; simpl; [lia|].
+    destruct Hx as [Hx|Hx]; [contradiction|]. apply IH in Hx. lia.
+  Qed.
+
+  Lemma is_source_in_spec (g : digraph) rem x :
+    is_source_in eqb g rem x = true <-> forall p, arc g p x -> ~ In p rem.
+  Proof.
+    unfold is_source_in. rewrite forallb_forall. split.
+    - intros H p Hp. apply memb_false, negb_true_iff, H, parents_in, Hp.
+    - intros H p Hp. apply negb_true_iff, memb_false, H, parents_in, Hp.
+  Qed.
+
+  Lemma topo_from_cons fuel (g : digraph) rem :
+    rem <> [] ->
+    topo_from eqb (S fuel) g rem =
+    flat_map (fun x => if is_source_in eqb g rem x
+                       then map (cons x) (topo_from eqb fuel g (removeb eqb x rem)) else []) rem.
+  Proof. destruct rem; [contradiction|reflexivity]. Qed.
+
+  Lemma topo_from_nil fuel (g : digraph) : topo_from eqb fuel g [] = [[]].
+  Proof. destruct fuel; reflexivity. Qed.
+
+  Lemma topo_from_spec (g : digraph) :
+    forall fuel rem l,
+      NoDup rem -> length rem <= fuel ->
+      (In l (topo_from eqb fuel g rem) <->
+       NoDup l /\ (forall y, In y l <-> In y rem) /\ fwd g l).
+  Proof.
+    induction fuel as [|f IH]; intros rem l Hnd Hlen.
+    - destruct rem as [|r rem]; [|simpl in Hlen; lia]. simpl. split.
+      + intros [<-|[]]. split; [constructor|]. split; [tauto|exact I].
+      + intros (_ & Heq & _). left. destruct l as [|x l]; [reflexivity|].
+        destruct (proj1 (Heq x) (or_introl eq_refl)).
+    - destruct rem as [|r rem'] eqn:Erem.
+      { rewrite topo_from_nil. simpl. split.
+        + intros [<-|[]]. split; [constructor|]. split; [tauto|exact I].
+        + intros (_ & Heq & _). left. destruct l as [|x l]; [reflexivity|].
+          destruct (proj1 (Heq x) (or_introl eq_refl)). }
+      rewrite <- Erem in *. assert (Hne : rem <> []) by (rewrite Erem; discriminate).
+      rewrite (topo_from_cons f g Hne), in_flat_map. split.
+      + intros (x & Hx & Hl).
+        destruct (is_source_in eqb g rem x) eqn:Es; [|contradiction].
+        apply in_map_iff in Hl. destruct Hl as (l' & <- & Hl').
+        apply IH in Hl'; [|apply removeb_nodup, Hnd|pose proof (removeb_length _ _ Hx); lia].
+        destruct Hl' as (Hnd' & Heq' & Hf').
+        assert (Heq : forall y, In y (x :: l') <-> In y rem).
+        { intros y. simpl. rewrite Heq', removeb_in. split.
+          - intros [<-|[H _]]; assumption.
+          - intros Hy. destruct (eqb_spec y x) as [->|Hyx]; [left; reflexivity|right; split; assumption]. }
+        split; [|split; [exact Heq|split; [|exact Hf']]].
+        * constructor; [|exact Hnd']. intros Hin. apply Heq', removeb_in in Hin.
+          apply (proj2 Hin); reflexivity.
+        * intros y Hy. apply Heq in Hy. intros Hyx.
+          apply (proj1 (is_source_in_spec g rem x) Es y Hyx Hy).
+      + intros (Hndl & Heq & Hf). destruct l as [|x l'].
+        { exfalso. rewrite Erem in Heq. apply (proj2 (Heq r)). left; reflexivity. }
+        inversion Hndl as [|? ? Hnin Hnd']; subst x0 l. destruct Hf as [Hx Hf'].
+        assert (Hxr : In x rem) by (apply Heq; left; reflexivity).
+        exists x. split; [exact Hxr|].
+        assert (Es : is_source_in eqb g rem x = true).
+        { apply is_source_in_spec. intros p Hpx Hp. apply Heq in Hp. exact (Hx p Hp Hpx). }
+        rewrite Es. apply in_map. apply IH.
+        * apply removeb_nodup, Hnd.
+        * pose proof (removeb_length _ _ Hxr). lia.
+        * split; [exact Hnd'|]. split; [|exact Hf'].
+          intros y. rewrite removeb_in. split.
+          -- intros Hy. split; [apply Heq; right; exact Hy|]. intros ->. exact (Hnin Hy).
+          -- intros [Hy Hyx]. apply Heq in Hy. destruct Hy as [->|Hy]; [contradiction|exact Hy].
+  Qed.
+
+  (** [all_topo] enumerates exactly the topological orders ... *)
+  Theorem all_topo_spec (g : digraph) l : wf g -> (In l (all_topo eqb g) <-> is_topo eqb g l = true).
+  Proof.
+    intros [Hndv _]. unfold all_topo, is_topo.
+    rewrite (topo_from_spec g l Hndv (le_n _)).
+    rewrite !andb_true_iff, distinctb_spec, (seteqb_spec eqb eqb_spec), fwdb_spec. tauto.
+  Qed.
+
+  Corollary all_topo_topo_order (g : digraph) l : wf g -> (In l (all_topo eqb g) <-> topo_order g l).
+  Proof. intros Hwf. rewrite (all_topo_spec l Hwf). apply is_topo_spec, Hwf. Qed.
+
+  Lemma topo_from_nodup (g : digraph) :
+    forall fuel rem, NoDup rem -> NoDup (topo_from eqb fuel g rem).
+  Proof.
+    induction fuel as [|f IH]; intros rem Hnd.
+    - destruct rem; simpl; [constructor; [intros []|constructor]|constructor].
+    - destruct rem as [|r rem'] eqn:Erem; [simpl; constructor; [intros []|constructor]|].
+      rewrite <- Erem in *. assert (Hne : rem <> []) by (rewrite Erem; discriminate).
+      rewrite (topo_from_cons f g Hne). apply NoDup_flat_map.
+      + exact Hnd.
+      + intros x _. destruct (is_source_in eqb g rem x); [|constructor].
+        apply NoDup_map_cons, IH, removeb_nodup, Hnd.
+      + intros x1 x2 l _ _ H1 H2.
+        assert (Hhd : forall x, In l (if is_source_in eqb g rem x
+                                      then map (cons x) (topo_from eqb f g (removeb eqb x rem))
+                                      else []) -> hd_error l = Some x).
+        { intros x Hx. destruct (is_source_in eqb g rem x); [|contradiction].
+          apply in_map_iff in Hx. destruct Hx as (l' & <- & _). reflexivity. }
+        apply Hhd in H1, H2. congruence.
+  Qed.
+
+  (** ... each exactly once. *)
+  Theorem all_topo_nodup (g : digraph) : wf g -> NoDup (all_topo eqb g).
+  Proof. intros [Hndv _]. apply topo_from_nodup, Hndv. Qed.
+
+  (** Existence.  A minimal element of a non-empty list for a total preorder. *)
+  Lemma min_exists (le : A -> A -> Prop) :
+    (forall x y, le x y \/ le y x) -> (forall x y z, le x y -> le y z -> le x z) ->
+    forall l, l <> [] -> exists m, In m l /\ forall y, In y l -> le m y.
+  Proof.
+    intros Htot Htrans. induction l as [|a l IH]; intros Hne; [contradiction|].
+    destruct l as [|a' l'].
+    - exists a. split; [left; reflexivity|]. intros y [<-|[]]. destruct (Htot a a); assumption.
+    - destruct IH as (m & Hm & Hmin); [discriminate|].
+      destruct (Htot a m) as [Ham|Hma].
+      + exists a. split; [left; reflexivity|]. intros y [<-|Hy].
+        * destruct (Htot a a); assumption.
+        * apply (Htrans a m y Ham), Hmin, Hy.
+      + exists m. split; [right; exact Hm|]. intros y [<-|Hy]; [exact Hma|apply Hmin, Hy].
+  Qed.
+
+  Lemma time_topo_from_exists (g : digraph) (lag : A -> Z) :
+    wf g -> acyclic g -> (forall a b, arc g a b -> (lag a <= lag b)%Z) ->
+    forall fuel rem, NoDup rem -> length rem <= fuel ->
+      exists l, In l (topo_from eqb fuel g rem) /\ lags_sorted lag l = true.
+  Proof.
+    intros Hwf Hac Hlag.
+    set (rank := fun v => length (anc eqb g v)).
+    set (le2 := fun x y => (lag x < lag y)%Z \/ (lag x = lag y /\ rank x <= rank y)).
+    assert (Htot : forall x y, le2 x y \/ le2 y x) by (intros x y; unfold le2; lia).
+    assert (Htrans : forall x y z, le2 x y -> le2 y z -> le2 x z) by (intros x y z; unfold le2; lia).
+    induction fuel as [|f IH]; intros rem Hnd Hlen.
+    - destruct rem; [|simpl in Hlen; lia]. exists []. split; [left; reflexivity|reflexivity].
+    - destruct rem as [|r rem'] eqn:Erem.
+      { exists []. split; [left; reflexivity|reflexivity]. }
+      rewrite <- Erem in *. assert (Hne : rem <> []) by (rewrite Erem; discriminate).
+      destruct (min_exists le2 Htot Htrans Hne) as (m & Hm & Hmin).
+      assert (Es : is_source_in eqb g rem m = true).
+      { apply is_source_in_spec. intros p Hpm Hp.
+        pose proof (Hlag p m Hpm) as H1.
+        pose proof (@anc_rank _ eqb eqb_spec g p m Hwf Hac Hpm) as H2. fold (rank p) (rank m) in H2.
+        specialize (Hmin p Hp). unfold le2 in Hmin. lia. }
+      assert (Hndr : NoDup (removeb eqb m rem)) by apply removeb_nodup, Hnd.
+      assert (Hlenr : length (removeb eqb m rem) <= f) by (pose proof (removeb_length _ _ Hm); lia).
+      destruct (IH (removeb eqb m rem) Hndr Hlenr) as (l' & Hl' & Hs').
+      exists (m :: l'). split.
+      + rewrite (topo_from_cons f g Hne). apply in_flat_map. exists m. split; [exact Hm|].
+        rewrite Es. apply in_map, Hl'.
+      + destruct l' as [|y t]; [reflexivity|].
+        change (negb (Z.ltb (lag y) (lag m)) && lags_sorted lag (y :: t) = true).
+        rewrite Hs', andb_true_r. apply negb_true_iff, Z.ltb_ge.
+        apply (topo_from_spec g (y :: t) Hndr Hlenr) in Hl'. destruct Hl' as (_ & Heq & _).
+        assert (Hy : In y rem) by (apply (removeb_in m rem y), Heq; left; reflexivity).
+        specialize (Hmin y Hy). unfold le2 in Hmin. lia.
+  Qed.
+
+  (** A time-series DAG whose arcs never go back in time has a topological order that is
+      sorted by time lag ([respect_time_ordering=True] never returns an empty answer). *)
+  Theorem time_topo_exists (g : digraph) (lag : A -> Z) :
+    wf g -> acyclic g -> (forall a b, arc g a b -> (lag a <= lag b)%Z) ->
+    exists l, is_topo eqb g l = true /\ lags_sorted lag l = true.
+  Proof.
+    intros Hwf Hac Hlag.
+    destruct (@time_topo_from_exists g lag Hwf Hac Hlag (length (verts g)) (verts g) (proj1 Hwf) (le_n _))
+      as (l & Hl & Hs).
+    exists l. split; [apply (all_topo_spec l Hwf), Hl|exact Hs].
+  Qed.
+
+  Theorem all_topo_nonempty (g : digraph) : wf g -> acyclic g -> all_topo eqb g <> [].
+  Proof.
+    intros Hwf Hac.
+    destruct (@time_topo_exists g (fun _ => 0%Z) Hwf Hac) as (l & Hl & _); [intros; lia|].
+    apply (all_topo_spec l Hwf) in Hl. intros E. rewrite E in Hl. exact Hl.
+  Qed.
+
+  (** Position of the first occurrence (used only as a rank function inside proofs). *)
+  Fixpoint index (x : A) (l : list A) : nat :=
+    match l with
+    | [] => 0
+    | y :: l' => if eqb x y then 0 else S (index x l')
+    end.
+
+  Lemma index_app x l1 r : ~ In x l1 -> index x (l1 ++ x :: r) = length l1.
+  Proof.
+    induction l1 as [|a l1 IH]; intros Hnin; simpl.
+    - rewrite eqb_refl. reflexivity.
+    - destruct (eqb_spec x a) as [->|Hne]; [exfalso; apply Hnin; left; reflexivity|].
+      rewrite IH; [reflexivity|]. intros Hin; apply Hnin; right; exact Hin.
+  Qed.
+
+  Lemma before_index l a b : NoDup l -> before l a b -> index a l < index b l.
+  Proof.
+    intros Hnd (l1 & l2 & l3 & ->).
+    assert (Ha : ~ In a l1).
+    { apply NoDup_remove_2 in Hnd. intros Hin; apply Hnd, in_or_app; left; exact Hin. }
+    rewrite (@index_app a l1 (l2 ++ b :: l3) Ha).
+    replace (l1 ++ a :: l2 ++ b :: l3) with ((l1 ++ a :: l2) ++ b :: l3) in *
+      by (rewrite <- app_assoc; reflexivity).
+    assert (Hb : ~ In b (l1 ++ a :: l2)).
+    { apply NoDup_remove_2 in Hnd. intros Hin; apply Hnd, in_or_app; left; exact Hin. }
+    rewrite (@index_app b (l1 ++ a :: l2) l3 Hb), app_length. simpl. lia.
+  Qed.
+
+  (** In a topological order the position strictly increases along every arc ... *)
+  Theorem topo_order_index (g : digraph) l :
+    wf g -> topo_order g l -> forall a b, arc g a b -> index a l < index b l.
+  Proof.
+    intros Hwf [Hperm Hb] a b Hab. apply before_index; [|apply Hb, Hab].
+    apply (Permutation_NoDup (Permutation_sym Hperm)), Hwf.
+  Qed.
+
+  (** ... so a graph that has one is acyclic, and a cyclic graph has none. *)
+  Theorem topo_order_acyclic (g : digraph) l : wf g -> topo_order g l -> acyclic g.
+  Proof.
+    intros Hwf Ht. apply (@rank_acyclic _ g (fun v => index v l)).
+    intros a b Hab. apply (@topo_order_index g l Hwf Ht a b Hab).
+  Qed.
+
+  Theorem all_topo_cyclic (g : digraph) : wf g -> ~ acyclic g -> all_topo eqb g = [].
+  Proof.
+    intros Hwf Hcyc. destruct (all_topo eqb g) as [|l ls] eqn:E; [reflexivity|]. exfalso.
+    assert (Hl : In l (all_topo eqb g)) by (rewrite E; left; reflexivity).
+    apply (all_topo_topo_order l Hwf) in Hl. apply Hcyc, (@topo_order_acyclic g l Hwf Hl).
+  Qed.
+
+  Theorem all_time_topo_spec (g : digraph) (lag : A -> Z) l :
+    wf g ->
+    (In l (all_time_topo eqb g lag) <-> is_topo eqb g l = true /\ lags_sorted lag l = true).
+  Proof. intros Hwf. unfold all_time_topo. rewrite filter_In, (all_topo_spec l Hwf). tauto. Qed.
+
+  Corollary all_time_topo_nonempty (g : digraph) (lag : A -> Z) :
+    wf g -> acyclic g -> (forall a b, arc g a b -> (lag a <= lag b)%Z) ->
+    all_time_topo eqb g lag <> [].
+  Proof.
+    intros Hwf Hac Hlag. destruct (time_topo_exists lag Hwf Hac Hlag) as (l & Hl & Hs).
+    assert (Hin : In l (all_time_topo eqb g lag)) by (apply all_time_topo_spec; [exact Hwf|split; assumption]).
+    intros E. rewrite E in Hin. exact Hin.
+  Qed.
+
+  (** * [get_ancestors], [get_descendants], [is_ancestor], [is_descendant],
+        [get_common_ancestors], [get_common_descendants] *)
+
+  Theorem get_descendants_spec (g : digraph) x y :
+    wf g -> (In y (get_descendants eqb g x) <-> path g x y).
+  Proof. apply desc_spec. Qed.
+
+  Theorem get_ancestors_spec (g : digraph) x y :
+    wf g -> (In y (get_ancestors eqb g x) <-> path g y x).
+  Proof. apply anc_spec. Qed.
+
+  Theorem is_ancestor_spec (g : digraph) a ds :
+    wf g -> (is_ancestor eqb g a ds = true <-> forall d, In d ds -> path g a d).
+  Proof.
+    intros Hwf. unfold is_ancestor. rewrite (subsetb_spec eqb eqb_spec). unfold incl.
+    split; intros H d Hd; apply (desc_spec a d Hwf), H, Hd.
+  Qed.
+
+  Theorem is_descendant_spec (g : digraph) d ans :
+    wf g -> (is_descendant eqb g d ans = true <-> forall a, In a ans -> path g a d).
+  Proof.
+    intros Hwf. unfold is_descendant. rewrite (subsetb_spec eqb eqb_spec). unfold incl.
+    split; intros H a Ha; apply (anc_spec d a Hwf), H, Ha.
+  Qed.
+
+  Theorem common_anc_spec (g : digraph) a b v :
+    wf g -> (In v (common_anc eqb g a b) <-> path g v a /\ path g v b).
+  Proof.
+    intros Hwf. unfold common_anc.
+    rewrite (inter_in eqb eqb_spec), (anc_spec a v Hwf), (anc_spec b v Hwf). tauto.
+  Qed.
+
+  Theorem common_desc_spec (g : digraph) a b v :
+    wf g -> (In v (common_desc eqb g a b) <-> path g a v /\ path g b v).
+  Proof.
+    intros Hwf. unfold common_desc.
+    rewrite (inter_in eqb eqb_spec), (desc_spec a v Hwf), (desc_spec b v Hwf). tauto.
+  Qed.
+
+  Lemma common_anc_nodup (g : digraph) a b : NoDup (common_anc eqb g a b).
+  Proof. apply (inter_nodup eqb), (anc_nodup eqb eqb_spec). Qed.
+
+  Lemma common_desc_nodup (g : digraph) a b : NoDup (common_desc eqb g a b).
+  Proof. apply (inter_nodup eqb), (desc_nodup eqb eqb_spec). Qed.
+
+  (** Docstring of [get_common_ancestors]: "If one of the provided nodes is an ancestor of
+      another, it will not appear in the returned set" — true on a DAG. *)
+  Lemma common_anc_excludes (g : digraph) a b :
+    wf g -> acyclic g -> ~ In a (common_anc eqb g a b) /\ ~ In b (common_anc eqb g a b).
+  Proof.
+    intros Hwf Hac. split; intros Hin; apply (common_anc_spec a b _ Hwf) in Hin.
+    - exact (Hac a (proj1 Hin)).
+    - exact (Hac b (proj2 Hin)).
+  Qed.
 End QueriesProofs.
+
+(** * Renaming invariance *)
+Section Rename.
+  Variables A B : Type.
+  Variable eqa : A -> A -> bool.
+  Variable eqb : B -> B -> bool.
+  Hypothesis eqa_spec : forall x y, reflect (x = y) (eqa x y).
+  Hypothesis eqb_spec : forall x y, reflect (x = y) (eqb x y).
+  Variable f : A -> B.
+  Hypothesis f_inj : forall x y, f x = f y -> x = y.
+
+  Lemma map_graph_arc_inv (g : digraph A) u v :
+    arc (map_graph f g) u v <-> exists a b, u = f a /\ v = f b /\ arc g a b.
+  Proof.
+    unfold arc, map_graph; simpl. rewrite in_map_iff. split.
+    - intros ([a b] & E & Hin). simpl in E. inversion E; subst. exists a, b. repeat split; exact Hin.
+    - intros (a & b & -> & -> & Hin). exists (a, b). split; [reflexivity|exact Hin].
+  Qed.
+
+  Lemma map_graph_arc (g : digraph A) a b : arc (map_graph f g) (f a) (f b) <-> arc g a b.
+  Proof.
+    rewrite map_graph_arc_inv. split.
+    - intros (a' & b' & Ea & Eb & H). apply f_inj in Ea, Eb. subst. exact H.
+    - intros H. exists a, b. repeat split; exact H.
+  Qed.
+
+  Lemma map_graph_path_inv (g : digraph A) u v :
+    path (map_graph f g) u v <-> exists a b, u = f a /\ v = f b /\ path g a b.
+  Proof.
+    split.
+    - intros Hp; induction Hp as [x y Hxy|x y z _ IH1 _ IH2].
+      + apply map_graph_arc_inv in Hxy. destruct Hxy as (a & b & -> & -> & H).
+        exists a, b. repeat split. apply t_step, H.
+      + destruct IH1 as (a & b & -> & -> & H1). destruct IH2 as (b' & c & E & -> & H2).
+        apply f_inj in E. subst b'. exists a, c. repeat split. eapply t_trans; eassumption.
+    - intros (a & b & -> & -> & Hp). induction Hp as [x y Hxy|x y z _ IH1 _ IH2].
+      + apply t_step, map_graph_arc, Hxy.
+      + eapply t_trans; eassumption.
+  Qed.
+
+  Lemma map_graph_path (g : digraph A) a b : path (map_graph f g) (f a) (f b) <-> path g a b.
+  Proof.
+    rewrite map_graph_path_inv. split.
+    - intros (a' & b' & Ea & Eb & H). apply f_inj in Ea, Eb. subst. exact H.
+    - intros H. exists a, b. repeat split; exact H.
+  Qed.
+
+  Lemma map_inj_nodup (l : list A) : NoDup l -> NoDup (map f l).
+  Proof.
+    induction 1 as [|x l Hnin Hnd IH]; simpl; constructor; [|exact IH].
+    intros Hin. apply in_map_iff in Hin. destruct Hin as (y & E & Hy).
+    apply f_inj in E. subst y. exact (Hnin Hy).
+  Qed.
+
+  Lemma map_graph_wf (g : digraph A) : wf g -> wf (map_graph f g).
+  Proof.
+    intros [Hnd Hwf]. split; [apply map_inj_nodup, Hnd|].
+    intros u v Huv. apply map_graph_arc_inv in Huv. destruct Huv as (a & b & -> & -> & H).
+    destruct (Hwf a b H) as [Ha Hb]. simpl. split; apply in_map; assumption.
+  Qed.
+
+  Lemma map_graph_acyclic (g : digraph A) : acyclic (map_graph f g) <-> acyclic g.
+  Proof.
+    split; intros Hac v Hp.
+    - apply (Hac (f v)), map_graph_path, Hp.
+    - apply map_graph_path_inv in Hp. destruct Hp as (a & b & Ea & Eb & Hp).
+      rewrite Ea in Eb. apply f_inj in Eb. subst b. exact (Hac a Hp).
+  Qed.
+
+  (** Descendants / ancestors commute with an injective renaming of the vertices. *)
+  Theorem desc_rename (g : digraph A) x y :
+    wf g -> (In y (map f (desc eqa g x)) <-> In y (desc eqb (map_graph f g) (f x))).
+  Proof.
+    intros Hwf. rewrite (desc_spec eqb eqb_spec (f x) y (map_graph_wf Hwf)), in_map_iff.
+    rewrite map_graph_path_inv. split.
+    - intros (z & <- & Hz). apply (desc_spec eqa eqa_spec x z Hwf) in Hz.
+      exists x, z. repeat split. exact Hz.
+    - intros (a & b & Ea & -> & Hp). apply f_inj in Ea. subst a.
+      exists b. split; [reflexivity|]. apply (desc_spec eqa eqa_spec x b Hwf), Hp.
+  Qed.
+
+  Theorem anc_rename (g : digraph A) x y :
+    wf g -> (In y (map f (anc eqa g x)) <-> In y (anc eqb (map_graph f g) (f x))).
+  Proof.
+    intros Hwf. rewrite (anc_spec eqb eqb_spec (f x) y (map_graph_wf Hwf)), in_map_iff.
+    rewrite map_graph_path_inv. split.
+    - intros (z & <- & Hz). apply (anc_spec eqa eqa_spec x z Hwf) in Hz.
+      exists z, x. repeat split. exact Hz.
+    - intros (a & b & -> & Eb & Hp). apply f_inj in Eb. subst b.
+      exists a. split; [reflexivity|]. apply (anc_spec eqa eqa_spec x a Hwf), Hp.
+  Qed.
+End Rename.
